@@ -1,6 +1,72 @@
 """C07 - physical states: the symmetry clause (N Hermitian, M symmetric) of the Gaussian simulator."""
+import ast
+
+from ..dataflow import rd_of
+from ..loader import dotted, walk_no_nested
 from . import common_gauss as G
 from . import c06
+
+
+def weights_normalised(ctx, rule="C07.weights-normalised"):
+    ctx.explain(f"{rule}: every bosonic prepare_* routine that returns (weights, means, covs) normalises the weights as "
+                "the LAST modification before each return (the definition of `weights` reaching the return is "
+                "`weights /= np.sum(weights)` or `weights = weights / np.sum(weights)`): filtering after the "
+                "normalisation leaves weights that do not sum to one.")
+    cls = ctx.tree.cls("backends/bosonicbackend/backend.py", "BosonicBackend")
+    n = 0
+    for name, f in sorted(cls.methods.items()):
+        if not name.startswith("prepare_"):
+            continue
+        rd = rd_of(f.node)
+        for nd in rd.cfg.nodes:
+            st = nd.ast
+            if nd.kind != "stmt" or not isinstance(st, ast.Return) or not isinstance(st.value, ast.Tuple) or not st.value.elts:
+                continue
+            w = st.value.elts[0]
+            if not isinstance(w, ast.Name):
+                continue
+            ds = [d for d in rd.reaching(w.id, nd.id) if not d.weak]
+            if not ds:
+                continue
+            n += 1
+            def is_norm(d):
+                s_ = d.stmt
+                if isinstance(s_, ast.AugAssign) and isinstance(s_.op, ast.Div) and isinstance(s_.value, ast.Call) and \
+                        dotted(s_.value.func) == "np.sum" and dotted(s_.value.args[0]) == w.id:
+                    return True
+                if isinstance(s_, ast.Assign) and isinstance(s_.value, ast.BinOp) and isinstance(s_.value.op, ast.Div) and \
+                        isinstance(s_.value.right, ast.Call) and dotted(s_.value.right.func) == "np.sum":
+                    return True
+                # a literal single weight [1]
+                if isinstance(s_, ast.Assign) and isinstance(s_.value, ast.Call) and dotted(s_.value.func) == "np.array" and \
+                        s_.value.args and isinstance(s_.value.args[0], ast.List) and len(s_.value.args[0].elts) == 1:
+                    return True
+                return False
+            bad = [d for d in ds if not is_norm(d)]
+            ok = not bad
+            ctx.ob(rule, f.site, ok, "" if ok else
+                   f"`{ast.unparse(bad[0].stmt)[:50]}` modifies the weights after they were normalised: the returned "
+                   "weights do not sum to one", role=f"last-def:{w.id}", line=st.lineno)
+    ctx.require(n >= 4, f"only {n} weight-returning prepare_* returns found")
+    ctx.floor(rule, 4)
+
+
+def kraus_complete(ctx, rule="C07.kraus-complete"):
+    ctx.explain(f"{rule}: the loss channel of the Fock backend returns one Kraus operator per Fock level (n in "
+                "range(trunc)) on both its branches - dropping one makes the channel trace-decreasing for states "
+                "inside the cutoff.")
+    f = ctx.tree.func("backends/fockbackend/ops.py", "lossChannel")
+    tp = f.pos_params[1]
+    rets = [n for n in walk_no_nested(f.node) if isinstance(n, ast.Return) and n.value is not None]
+    ctx.require(len(rets) >= 1, "lossChannel returns nothing")
+    for i, r in enumerate(rets):
+        v = r.value
+        ok = isinstance(v, ast.ListComp) and len(v.generators) == 1 and not v.generators[0].ifs and \
+            isinstance(v.generators[0].iter, ast.Call) and dotted(v.generators[0].iter.func) == "range" and \
+            len(v.generators[0].iter.args) == 1 and dotted(v.generators[0].iter.args[0]) == tp
+        ctx.ob(rule, f.site, ok, "" if ok else f"`{ast.unparse(v)[:50]}` does not enumerate all {tp} Kraus operators",
+               role=f"ret{i}", line=r.lineno)
+    ctx.floor(rule, 2)
 
 
 def rules(ctx):
@@ -8,3 +74,5 @@ def rules(ctx):
     ctx.floor("C07.mirror", 14)
     # the Schur complement with the noise term is what keeps the conditional covariance physical
     c06.gain(ctx, "C07.gain")
+    weights_normalised(ctx)
+    kraus_complete(ctx)
